@@ -102,6 +102,7 @@ fn main() {
             let seed: u64 = arg_val(&args, "--seed").or_else(|| std::env::var("VERIF_SEED").ok()).and_then(|s| s.parse().ok()).unwrap_or(20260927);
             let (q, t) = budget(&prop);
             let runs: u64 = arg_val(&args, "--runs").or_else(|| std::env::var("VERIF_RUNS").ok()).and_then(|s| s.parse().ok()).unwrap_or(if tier == "thorough" { t } else { q });
+            let runs = runs / std::env::var("VERIF_RUNS_DIV").ok().and_then(|s| s.parse::<u64>().ok()).unwrap_or(1).max(1);
             let max_secs: u64 = arg_val(&args, "--secs").or_else(|| std::env::var("VERIF_SECS").ok()).and_then(|s| s.parse().ok()).unwrap_or(if tier == "thorough" { 1500 } else { 150 });
             let jobs: usize = arg_val(&args, "--jobs").or_else(|| std::env::var("VERIF_JOBS").ok()).and_then(|s| s.parse().ok()).unwrap_or_else(|| std::thread::available_parallelism().map(|n| n.get()).unwrap_or(8));
             let o = driver::Opts { prop, tier, seed, runs, max_secs, jobs, write_evidence: !args.iter().any(|a| a == "--no-evidence") };
